@@ -52,7 +52,11 @@ func (d *uintDecoder) parseUint(b []byte) (uint64, error) {
 	for i := 0; i < maxDigit; i++ {
 		c := uint64(b[i]) - 48
 		digitValue := pow10u64[maxDigit-i-1]
-		sum += c * digitValue
+		v := c * digitValue
+		if maxDigit == pow10u64Len && ((i == 0 && c > 1) || sum+v < sum) {
+			return 0, fmt.Errorf("number out of range of uint64")
+		}
+		sum += v
 	}
 	return sum, nil
 }
